@@ -256,7 +256,7 @@ func c06r2(c *core.Ctx) {
 							}
 						}
 						for _, a := range mv.Args {
-							if m.ExprString(a) == dst && readBefore {
+							if (m.ExprString(a) == dst || m.BaseString(a) == dst) && readBefore {
 								okStart = true
 							}
 						}
@@ -295,8 +295,8 @@ func c06r2(c *core.Ctx) {
 	// The record type is the element type of the scratch list of batch records (found by type, not by name).
 	recType := ""
 	if fv := m.FieldByKey("slices.batches"); fv != nil {
-		if sl, ok := fv.Type().(*types.Slice); ok {
-			recType = core.NamedName(sl.Elem())
+		if el := listElemOf(fv.Type()); el != nil {
+			recType = core.NamedName(el)
 		}
 	}
 	if recType == "" {
@@ -309,6 +309,16 @@ func c06r2(c *core.Ctx) {
 				for _, s := range m.DirectStores(f, as) {
 					if k := s.Path.Last(); ownerOf(k) == recType {
 						stored[k] = true
+						// a store of a whole nested struct of the record (rec.rows = rows) stores the fields grouped in it
+						if fv := m.FieldByKey(k); fv != nil {
+							if st, ok := fv.Type().Underlying().(*types.Struct); ok {
+								for i := 0; i < st.NumFields(); i++ {
+									if k2 := m.FieldKey(st.Field(i).Origin()); ownerOf(k2) == recType {
+										stored[k2] = true
+									}
+								}
+							}
+						}
 					}
 				}
 			}
@@ -648,7 +658,7 @@ func c06r6(c *core.Ctx) {
 				return true
 			}
 			for i, r := range as.Rhs {
-				if k := fieldKeyOf(m, r); strings.HasPrefix(k, "slices.") && i < len(as.Lhs) {
+				if k := fieldKeyOf(m, r); k != "" && isScratchOwner(m, ownerOf(k)) && isSliceType(m.Info.TypeOf(r)) && i < len(as.Lhs) {
 					takes = append(takes, take{key: k, at: as.Pos(), end: f.Body.End()})
 				}
 			}
@@ -727,7 +737,7 @@ func returnsScratch(m *core.Model, f *core.Func) string {
 			return true
 		}
 		for _, d := range localDefsOf(m, f, v) {
-			if k := fieldKeyOf(m, d); strings.HasPrefix(k, "slices.") {
+			if k := fieldKeyOf(m, d); k != "" && isScratchOwner(m, ownerOf(k)) && isSliceType(m.Info.TypeOf(d)) {
 				// not released inside f
 				released := false
 				core.InspectNoLits(f.Body, func(x ast.Node) bool {
